@@ -8,6 +8,7 @@ package main
 
 import (
 	"fmt"
+	"os"
 	"time"
 
 	"github.com/tuneinsight/lattigo/v6/ring"
@@ -100,6 +101,8 @@ func scenarios(tier string) []engine.Scenario {
 	return scs
 }
 
+var debugLeaves = os.Getenv("C06_DEBUG") != ""
+
 func runProgram(c *engine.Chooser, e *env, name string, init int, first []instr, rest [][]instr) {
 	uni.Seed(c, name) // no fresh randomness is drawn inside a leaf (registers are copies); kept for discipline
 	m := newMachine(e, c, name, init)
@@ -118,6 +121,9 @@ func runProgram(c *engine.Chooser, e *env, name string, init int, first []instr,
 	for pos := 0; ; pos++ {
 		ins := alpha[c.Choose(len(alpha), fmt.Sprintf("i%d", pos))]
 		st := m.step(ins)
+		if debugLeaves {
+			fmt.Fprintf(os.Stderr, "leaf %s pos=%d %s -> %d\n", name, pos, ins.name(), st)
+		}
 		c.Count(1)
 		if st != stOK {
 			c.Outcome(e.cf.Name, m.path, st)
